@@ -121,6 +121,14 @@ class ExprMixin:
             return v
         if name in self.spec_names:
             return const(self.spec_names[name])
+        f = fr.func
+        if f is not None and getattr(f, '__closure__', None) and name in f.__code__.co_freevars:
+            # free variable of a closure: the real cell content
+            cell = f.__closure__[f.__code__.co_freevars.index(name)]
+            try:
+                return self.lift(cell.cell_contents)
+            except ValueError:
+                raise Unsupported(f'empty closure cell {name}')
         if name in fr.globals:
             return self.lift(fr.globals[name])
         if hasattr(_builtins, name):
